@@ -170,7 +170,7 @@ def run_tlc(
     dfs_queue: bool = False,
 ) -> TlcResult:
     meta = os.path.join(workdir, "states_" + module)
-    jopts = [f"-Xmx{heap}", "-XX:+UseParallelGC"]
+    jopts = [f"-Xmx{heap}", "-XX:+UseParallelGC", "-Xss512m"]
     if dfs_queue:
         jopts.append("-Dtlc2.tool.queue.IStateQueue=StateDeque")
     cmd = ["java", *jopts, "-cp", f"{TLA_JAR}:{TLA_DEPS}", "tlc2.TLC"]
@@ -189,11 +189,48 @@ def run_tlc(
     if env_extra:
         env.update({k: str(v) for k, v in env_extra.items()})
     t0 = time.time()
+    # TLC re-evaluates a failing expression with call-stack tracking, which can take forever on nested
+    # matrix expressions; an arithmetic overflow is therefore detected on the fly and TLC is stopped.
+    outf = tempfile.TemporaryFile(mode="w+", dir=workdir)
+    proc = subprocess.Popen(cmd, cwd=workdir, env=env, stdout=outf, stderr=subprocess.STDOUT, text=True)
+    overflow_seen = None
+    killed_for_overflow = False
+    pos = 0
     try:
-        p = subprocess.run(cmd, cwd=workdir, env=env, capture_output=True, text=True, timeout=timeout_s)
-    except subprocess.TimeoutExpired as e:
-        subprocess.run(["pkill", "-f", f"metadir {meta}"], check=False)
-        raise MachineryError(f"TLC timeout after {timeout_s}s on {module}") from e
+        while True:
+            try:
+                proc.wait(timeout=0.5)
+                break
+            except subprocess.TimeoutExpired:
+                pass
+            now = time.time()
+            if now - t0 > timeout_s:
+                proc.kill()
+                proc.wait()
+                raise MachineryError(f"TLC timeout after {timeout_s}s on {module}")
+            if overflow_seen is None and now - t0 > 1.5:
+                outf.seek(pos)
+                chunk = outf.read()
+                if "Overflow when computing" in chunk:
+                    overflow_seen = now
+                else:
+                    pos = max(0, pos + len(chunk) - 40)
+            elif overflow_seen is not None and now - overflow_seen > 2.0:
+                proc.kill()
+                proc.wait()
+                killed_for_overflow = True
+                break
+        outf.seek(0)
+        text = outf.read()
+    finally:
+        outf.close()
+
+    class _P:
+        pass
+
+    p = _P()
+    p.stdout, p.stderr = text, ""
+    p.returncode = -9 if killed_for_overflow else proc.returncode
     wall = time.time() - t0
     out = p.stdout + "\n" + p.stderr
     gen = dist = 0
